@@ -1,7 +1,6 @@
 package main
 
 import (
-	"bytes"
 	"fmt"
 	"sort"
 	"strings"
@@ -84,7 +83,7 @@ func serverCoq(kind int, notAfter int64) string {
 	if kind == srv13hrr {
 		groups = "[24]"
 	}
-	return fmt.Sprintf("(mkServer 7 %s %s %s %d [1; 2])", vers, u16list(allSuites), groups, notAfter)
+	return fmt.Sprintf("(mkServer 7 %s %s %s %d [1; 2; 3; 4; 5; 6])", vers, u16list(allSuites), groups, notAfter)
 }
 
 // ---------- observation -> seen ----------
@@ -293,6 +292,22 @@ func run(c *vh.Ctx) {
 		}
 		hists = append(hists, []connPlan{mk(p, 0, srv12, hour), mk(p, 0, srvBoth, hour), mk(p, 0, srv12, hour), mk(p, 0, srv13, hour), mk(p, 0, srvBoth, hour)})
 	}
+	// corpus 5: name shapes beyond DNS names — the cache key is Config.ServerName exactly as configured, else the
+	// remote address: IP literals (v4, v6) reaching one listener, a trailing dot, no name at all (InsecureSkipVerify)
+	const (
+		nA, nADot, nIP1, nIP2, nIP6 = 0, 2, 3, 4, 5
+	)
+	for _, p := range pick("Golang", "Chrome_100_PSK", "Chrome_100") {
+		for _, k := range []int{srv12, srv13} {
+			hists = append(hists, []connPlan{mk(p, nIP1, k, hour), mk(p, nIP2, k, hour), mk(p, nIP1, k, hour), mk(p, nIP6, k, hour), mk(p, nIP6, k, hour)})
+			hists = append(hists, []connPlan{mk(p, nA, k, hour), mk(p, nADot, k, hour), mk(p, nA, k, hour), mk(p, nADot, k, hour)})
+			sk := []connPlan{mk(p, nameEmpty, k, hour), mk(p, nIP1, k, hour), mk(p, nameEmpty, k, hour), mk(p, nIP2, k, hour), mk(p, nIP1, k, hour)}
+			for i := range sk {
+				sk[i].SkipVerify = true
+			}
+			hists = append(hists, sk)
+		}
+	}
 	ncorpus := len(hists)
 	// random histories
 	advs := []time.Duration{0, hour, hour, day, 3 * day, 6 * day, 8 * day}
@@ -324,6 +339,12 @@ func run(c *vh.Ctx) {
 			pl := mk(p, 0, k, adv)
 			if c.Rng.Intn(5) == 0 {
 				pl.Name = 1
+			}
+			if c.Rng.Intn(6) == 0 {
+				pl.Name = c.Rng.Intn(len(serverNames)) // any name shape; without a name verification must be off
+				if pl.Name == nameEmpty {
+					pl.SkipVerify = true
+				}
 			}
 			if c.Rng.Intn(12) == 0 {
 				pl.OmitEmpty = false
@@ -364,8 +385,13 @@ func run(c *vh.Ctx) {
 		}
 		var items []string
 		var keyb strings.Builder
-		before := map[string]tls.VerifC19Session{} // cache content per name before the connection
-		storer := map[string]string{}              // which parrot's connection stored it
+		// every session the client ever put into the cache, by ticket: which server name it was negotiated with
+		// (Config.ServerName as configured; "@address" without one) and by which parrot
+		type origin struct {
+			identity, parrot string
+			info             tls.VerifC19Session
+		}
+		origins := map[string]origin{}
 		nontrivial := false
 		elapsed := time.Duration(0)
 		for j := range r.obs {
@@ -382,7 +408,8 @@ func run(c *vh.Ctx) {
 			if o.CliResumed {
 				nres++
 			}
-			name := serverNames[pl.Name]
+			pl = o.Plan // connect() turns verification off for a connection without ServerName
+			name := o.Identity
 			input := map[string]any{"history": hi, "conn": j, "parrots": planNames(r.plans), "servers": planSrvs(r.plans),
 				"names": planNameIdx(r.plans), "advance_s": planAdv(r.plans), "omit_empty_psk": pl.OmitEmpty, "seed": c.Seed}
 
@@ -404,30 +431,26 @@ func run(c *vh.Ctx) {
 			if strings.Contains(o.CliPanic, "uApplyPatch") {
 				c.Fail("binder-len/"+p.Name, "uApplyPatch length assertion fired", input, o.CliPanic, "no panic")
 			}
+			var offered *origin
 			if code != 0 && label != nil {
-				mine, have := before[name]
-				if !have || !bytes.Equal(mine.Ticket, label) {
-					other := ""
-					for n2, s2 := range before {
-						if n2 != name && bytes.Equal(s2.Ticket, label) {
-							other = n2
-						}
-					}
-					if other != "" {
-						c.Fail("cross-name/"+p.Name, "a session stored for "+other+" was offered to "+name, input, other, name)
-					} else {
-						c.Fail("unknown-ticket/"+p.Name, "the offered ticket is not the one cached for this name", input, len(label), "cached ticket")
+				if og, ok := origins[string(label)]; !ok {
+					c.Fail("unknown-ticket/"+p.Name, "the offered ticket was never stored by this client", input, len(label), "a cached ticket")
+				} else {
+					offered = &og
+					if og.identity != name {
+						c.Fail("cross-name/"+p.Name, "a session stored for server name "+og.identity+" was offered to "+name, input, og.identity, name)
 					}
 				}
 			}
 			emsDown := false
-			if code == 1 && len(o.Srv.hellos) > 0 && !o.Srv.hellos[0].HasEMS {
-				if mine, have := before[name]; have && mine.EMS {
-					emsDown = true
-				}
+			if code == 1 && len(o.Srv.hellos) > 0 && !o.Srv.hellos[0].HasEMS && offered != nil && offered.info.EMS {
+				emsDown = true
 			}
 			if emsDown || cls == 3 {
-				from := storer[name]
+				from := "?"
+				if offered != nil {
+					from = offered.parrot
+				}
 				c.Fail("ems-downgrade/"+from+"->"+p.Name, "an extended-master-secret session was offered in a hello without extended_master_secret (RFC 7627 5.3: the server must abort)",
 					input, map[string]any{"client_err": o.CliErr, "server_err": o.Srv.err}, "session not offered")
 			}
@@ -468,23 +491,26 @@ func run(c *vh.Ctx) {
 				suite = defaultSuite(p, pl.Srv)
 			}
 			tlen := 0
-			if s, ok := o.After[name]; ok {
-				tlen = s.TicketLen
+			for _, ev := range o.Events {
+				if ev.Put && !ev.Nil {
+					tlen = ev.Info.TicketLen
+					origins[string(ev.Info.Ticket)] = origin{name, p.Name, ev.Info}
+				}
 			}
 			var cacheItems []string
-			for ni, n := range serverNames {
-				if s, ok := o.After[n]; ok {
-					cacheItems = append(cacheItems, fmt.Sprintf("(%d, Some (%d, %d, %s))", ni+1, s.Version, s.Suite, vh.Bool(s.EMS)))
+			for _, id := range keyIDs {
+				if s, ok := o.After[id]; ok {
+					cacheItems = append(cacheItems, fmt.Sprintf("(%d, Some (%d, %d, %s))", id, s.Version, s.Suite, vh.Bool(s.EMS)))
 				} else {
-					cacheItems = append(cacheItems, fmt.Sprintf("(%d, None)", ni+1))
+					cacheItems = append(cacheItems, fmt.Sprintf("(%d, None)", id))
 				}
 			}
 			helloEMS := false
 			if len(o.Srv.hellos) > 0 {
 				helloEMS = o.Srv.hellos[0].HasEMS
 			}
-			items = append(items, fmt.Sprintf("(mkConn %s %d %s %d %s %s %d %d, mkSeen %d %s %d %s %s %s)",
-				p.coq(), pl.Name+1, serverCoq(pl.Srv, notAfter), o.Now, vh.Bool(pl.OmitEmpty), vh.Bool(pl.SkipVerify), suite, tlen,
+			items = append(items, fmt.Sprintf("(mkConn %s %d %d %s %d %s %s %d %d, mkSeen %d %s %d %s %s %s)",
+				p.coq(), nameID(pl.Name), addrID(pl.Srv), serverCoq(pl.Srv, notAfter), o.Now, vh.Bool(pl.OmitEmpty), vh.Bool(pl.SkipVerify), suite, tlen,
 				cls, vh.Bool(o.CliResumed), code, vh.Bool(helloEMS), vh.Bool(o.CliHRRSeen), vh.List(cacheItems)))
 			fmt.Fprintf(&keyb, "%s/%d/%d/%d/%v/%v;", p.Name, pl.Name, pl.Srv, pl.Advance/time.Second, pl.OmitEmpty, pl.SkipVerify)
 
@@ -499,8 +525,8 @@ func run(c *vh.Ctx) {
 					bl = append(bl, fmt.Sprint(len(b)))
 				}
 				su := uint16(0)
-				if s, ok := before[name]; ok {
-					su = s.Suite
+				if offered != nil {
+					su = offered.info.Suite
 				}
 				pre, post := 0, 0
 				if o.LenSeen {
@@ -513,18 +539,6 @@ func run(c *vh.Ctx) {
 					fmt.Sprintf("%d/%d/%s", hi, j, p.Name), o.LenSeen, nil)
 			}
 
-			// bookkeeping for the next connection
-			for _, n := range serverNames {
-				if s, ok := o.After[n]; ok {
-					if old, had := before[n]; !had || !bytes.Equal(old.Ticket, s.Ticket) {
-						storer[n] = p.Name
-					}
-					before[n] = s
-				} else {
-					delete(before, n)
-					delete(storer, n)
-				}
-			}
 		}
 		var sample any
 		if hi < 3 {
@@ -535,6 +549,20 @@ func run(c *vh.Ctx) {
 	c.Extra["connections"] = nconn
 	c.Extra["resumed_connections"] = nres
 }
+
+// model ids of every possible cache key: the non-empty names and the four listener addresses
+var keyIDs = func() []int {
+	var r []int
+	for i, n := range serverNames {
+		if n != "" {
+			r = append(r, nameID(i))
+		}
+	}
+	for k := 0; k < nSrvKinds; k++ {
+		r = append(r, addrID(k))
+	}
+	return r
+}()
 
 func defaultSuite(p *parrot, kind int) uint16 {
 	want13 := kind == srv13 || kind == srv13hrr || (kind == srvBoth && p.Max13)
